@@ -384,3 +384,171 @@ class sync_handler(Contract):
         some_raised = z3.Exists([k], z3.And(z3.Select(R.dom, k), raised))
         out['callback_iff_some_entry_raised'] = zbool(len(missing.calls) == 1) == some_raised
         return out
+
+
+# ----------------------------------------------------------------------------- new_data, on_timer (announce exactly when needed)
+import asyncio as _aio                                                # noqa: E402
+from pyvc.values import CoroVal                                       # noqa: E402
+
+
+@contract
+class new_data(Contract):
+    fn = sync.SvsInst.new_data
+    props = ('C18',)
+    doc = ('new_data: the own sequence number grows by exactly one, the local vector records it for this node and nothing else '
+           'changes in it, the instance goes to the steady state with the sync timer due at once, and the timer task is woken iff '
+           'the instance is running; the new sequence number is returned')
+    raises = {}
+
+    def setup(self, cx):
+        run = cx.run
+        inst = mk_inst(cx)
+        inst.d['running'] = run.choose([(True, True), (False, True)], 'running')
+        run.ghost['svs.local0'] = inst.d['local_sv'].sym.copy()
+        run.ghost['svs.seq0'] = inst.d['self_seq']
+        return dict(self=inst)
+
+    def post(c, cx, result, self):
+        g = cx.run.ghost
+        L, L0 = self.d['local_sv'].sym, g['svs.local0']
+        me = zint(self.d['self_node_id'].kid)
+        k = z3.Int('k!nd')
+        ev = g['svs']['event']
+        return {'sequence_number_grows_by_one_and_is_returned': And(Eq(zint(self.d['self_seq']), zint(g['svs.seq0']) + 1),
+                                                                    Eq(zint(result), zint(self.d['self_seq']))),
+                'local_vector_records_it_for_this_node_only': z3.ForAll([k], z3.If(
+                    k == me, z3.And(z3.Select(L.dom, k), z3.Select(L.val, k) == zint(self.d['self_seq'])),
+                    z3.And(z3.Select(L.dom, k) == z3.Select(L0.dom, k), z3.Select(L.val, k) == z3.Select(L0.val, k)))),
+                'steady_state_timer_due_at_once': self.d['state'] is SvsState.SyncSteady and self.d['next_sync_timing'] == 0,
+                'timer_task_woken_iff_running': ev.sets == (1 if self.d['running'] else 0)}
+
+
+@contract
+class express_sync_interest_summary(Contract):
+    """call-site summary inside on_timer: one sync Interest is emitted (its content: bounded stand-in)"""
+    fn = sync.SvsInst.express_sync_interest
+    assumed = True
+
+    def use_contract_at(c, it, args, kwargs):
+        return 'svs.timer' in it.run.ghost
+
+    def result(c, cx, self):
+        cx.run.ghost['svs.timer']['sent'] += 1
+        return None
+
+
+class TimerEvent(Event):
+    def getattr_(self, it, name, node):
+        if name == 'wait':
+            return _M(lambda it_: CoroVal(lambda: True, 'Event.wait'))
+        return super().getattr_(it, name, node)
+
+
+def _timer_wait_for(base):
+    def model(it, args, kwargs, node):
+        if 'svs.timer' not in it.run.ghost:
+            return base(it, args, kwargs, node)
+
+        def thunk():
+            tag = it.run.choose([('event', True), (TimeoutError, True), (_aio.CancelledError, True)], 'wait_for')
+            it.run.ghost['svs.timer']['outcome'] = tag
+            if tag == 'event':
+                return True
+            raise PyExc(tag, ('from wait_for',), getattr(node, 'lineno', None), it.where())
+        return CoroVal(thunk, 'wait_for')
+    return model
+
+
+def _install_timer():
+    from pyvc import models
+    base = models.BUILTIN_MODELS.get(_aio.wait_for) or models.REAL_FUNCTION_MODELS.get(_aio.wait_for)
+    m = _timer_wait_for(base)
+    models.REAL_FUNCTION_MODELS[_aio.wait_for] = m
+    models.BUILTIN_MODELS[_aio.wait_for] = m
+    old_max = models.BUILTIN_MODELS.get(max)
+
+    def m_max(it, args, kwargs, node):
+        if any(isinstance(a, FloatTok) for a in args):
+            return FloatTok()
+        return old_max(it, args, kwargs, node)
+    models.BUILTIN_MODELS[max] = m_max
+
+
+def _timer_inv(it, env, g):
+    self_ = env['self']
+    k = z3.Int('k!ti')
+    L, A = self_.d['local_sv'].sym, self_.d['agg_sv'].sym
+    return {'sequence_numbers_nonnegative': z3.ForAll([k], z3.And(z3.Select(L.val, k) >= 0, z3.Select(A.val, k) >= 0))}
+
+
+def _timer_havoc(it, env, g):
+    run = it.run
+    self_ = env['self']
+    t = run.ghost['svs.timer']
+    self_.d['running'] = run.fresh_bool('running')
+    st = run.choose([('steady', True), ('suppression', True)], 'state at head')
+    self_.d['state'] = SvsState.SyncSteady if st == 'steady' else SvsState.SyncSuppression
+    self_.d['local_sv'].sym = SymMap.fresh(run, 'local_sv')
+    self_.d['agg_sv'].sym = SymMap.fresh(run, 'agg_sv')
+    ev = TimerEvent()
+    self_.d['timer_rst_event'] = ev
+    t.update(sent=0, outcome=None, state0=self_.d['state'], local0=self_.d['local_sv'].sym, agg0=self_.d['agg_sv'].sym, event=ev)
+    return self_
+
+
+def _scan_inv(it, env, g):
+    """suppression scan: nothing found yet that the aggregate does not cover"""
+    self_ = env['self']
+    A = self_.d['agg_sv'].sym
+    m, V = g['map'], g['visited']
+    k = z3.Int('k!sc')
+    return {'no_visited_entry_exceeds_the_aggregate': And(env['necessary'] is False or Not(env['necessary']) if is_sym(env['necessary']) else env['necessary'] is False,
+                                                            z3.ForAll([k], z3.Implies(z3.Select(V, k), get0(A, k) >= z3.Select(m.val, k))))}
+
+
+def _timer_step(it, pre, env, g):
+    run = it.run
+    t = run.ghost['svs.timer']
+    self_ = env['self']
+    L, A = t['local0'], t['agg0']
+    k = z3.Int('k!ts')
+    out = {'vectors_untouched_by_the_timer': self_.d['local_sv'].sym is L and self_.d['agg_sv'].sym is A}
+    if t['outcome'] == 'event':
+        out['woken_by_a_reset_nothing_is_sent'] = t['sent'] == 0 and self_.d['state'] is t['state0'] and t['event'].clears == 1
+        return out
+    # the timer fired while running
+    out['back_to_steady_state'] = self_.d['state'] is SvsState.SyncSteady
+    out['timer_rearmed'] = t['event'].clears == 1 and isinstance(self_.d['next_sync_timing'], FloatTok)
+    behind = z3.Exists([k], z3.And(z3.Select(L.dom, k), get0(A, k) < z3.Select(L.val, k)))
+    if t['state0'] is SvsState.SyncSteady:
+        out['steady_state_timer_always_announces_once'] = t['sent'] == 1
+    else:
+        out['after_suppression_announce_iff_someone_heard_is_behind'] = And(t['sent'] <= 1, Iff(t['sent'] == 1, behind))
+    return out
+
+
+@contract
+class on_timer(Contract):
+    fn = sync.SvsInst.on_timer
+    props = ('C18',)
+    doc = ('on_timer, one iteration from ANY state and ANY vectors (loop step contract): woken by a reset it sends nothing; when the '
+           'timer fires in the steady state exactly one sync Interest is sent; when it fires after a suppression period the instance '
+           'returns to the steady state and sends one iff some entry of the local vector is larger than what the aggregate of the '
+           'vectors heard covers; the vectors themselves are not touched; a cancellation ends the task; nothing is raised')
+    raises = {}
+    loops = {1: LoopSpec(_timer_inv, havoc={'self': _timer_havoc}, step=_timer_step),
+             2: LoopSpec(_scan_inv, havoc={'lsv_id': lambda it, env, g: None, 'lsv_seq': lambda it, env, g: None})}
+
+    def setup(self, cx):
+        run = cx.run
+        inst = mk_inst(cx)
+        inst.d['timer_rst_event'] = TimerEvent()
+        run.ghost['svs.timer'] = dict(sent=0, outcome=None, state0=inst.d['state'], local0=inst.d['local_sv'].sym,
+                                      agg0=inst.d['agg_sv'].sym, event=inst.d['timer_rst_event'])
+        return dict(self=inst)
+
+    def post(c, cx, result, self):
+        return {}
+
+
+_install_timer()
